@@ -148,10 +148,22 @@ C14_Call(e) == LET r == e.res IN
        /\ (JsonMatch(e.cmd, r) \/ LegMatch(e.cmd, r))
 \* batch event: [op = "tidbatch", n, sorted = all transaction ids of the process, sorted, cols = distinct
 \* characters seen per position]
-C14_Batch(e) == /\ \A i \in 1..(Len(e.sorted) - 1) : e.sorted[i] # e.sorted[i + 1]
+\* "Fresh" for ids drawn from 40 random bits cannot mean "never twice" over long histories (birthday bound: 10^6 ids
+\* collide with probability 0.37).  The demands below are statistics whose probability of failing on a correct
+\* generator (independent uniform 5-byte ids) is below 1e-9 per run in total (derivation in notes/reqparam.md):
+\* the number of colliding pairs among n ids is Poisson with mean n^2 / 2^41;
+DupBound(n) == IF n <= 5000 THEN 1 ELSE IF n <= 50000 THEN 2 ELSE IF n <= 1000000 THEN 9 ELSE 1000000000
+C14_Batch(e) == /\ Cardinality({i \in 1..(Len(e.sorted) - 1) : e.sorted[i] = e.sorted[i + 1]}) <= DupBound(e.n)
                 /\ e.n = Len(e.sorted)
                 /\ e.n >= 32 => \A i \in 1..10 : Len(e.cols[i]) >= 2
-C14_Ev(e) == IF e.op = "reqparam" THEN C14_Call(e) ELSE IF e.op = "tidbatch" THEN C14_Batch(e) ELSE TRUE
+\* long history of one process: [op = "tidlong", n ids, fails, badfmt, dups = colliding pairs, zeroheavy = ids with >= 4
+\* zero bytes (1.2e-9 each), minwin[b] = fewest distinct values of byte b in an aligned window of 64 consecutive ids]
+C14_Long(e) == /\ e.badfmt = 0                                   \* every id is 10 characters of [0-9a-f]
+               /\ e.dups <= DupBound(e.n)                         \* no id handed out again (beyond chance)
+               /\ e.n <= 1000000 => e.zeroheavy <= 2              \* no ids with (almost) no random bytes
+               /\ e.n >= 64 => \A b \in 1..5 : e.minwin[b] >= 33   \* no byte position stuck over 64 consecutive ids
+C14_Ev(e) == IF e.op = "reqparam" THEN C14_Call(e) ELSE IF e.op = "tidbatch" THEN C14_Batch(e)
+             ELSE IF e.op = "tidlong" THEN C14_Long(e) ELSE TRUE
 
 \* the precise design (what csr.NewReqParam does, with the JSON-null defect repaired)
 Attrs14(c) ==
@@ -171,7 +183,7 @@ Design14(e) ==
 Same14(r, d) == /\ r.ok = d.ok /\ ~r.pan
                 /\ r.ok => [r EXCEPT !.tidc = <<>>] = [d EXCEPT !.tidc = <<>>]
 Xok(e, ok) == e.xok \in {"na", IF ok THEN "t" ELSE "f"}
-C14_Strict(e) == IF e.op = "reqparam"
+C14_Strict(e) == IF e.op = "tidlong" THEN e.fails = 0 ELSE IF e.op = "reqparam"
                  THEN /\ Same14(e.res, Design14(e)) /\ Xok(e, e.res.ok)
                       /\ e.conn.ipc \in {"v4", "v6"} => e.conn.strict      \* the driver's classes agree with the validator
                       /\ e.conn.ipc = "notip" => ~e.conn.strict
